@@ -1,10 +1,15 @@
 from vlib.pipeline import Group
 QS = ["qsopt_mpq.c", "lpdata_mpq.c", "allocrus.c"]
 MODEL = ["@model/gmp_model.c", "@model/io_model.c", "@model/globals_mpq.c"]
+BB = "nstruct, nrows in 1..3 (all loops completely unwound); arbitrary status bytes and row senses; allocation failure not explored (--no-malloc-may-fail): the property is about invalid arguments"
 
 GROUPS = [
     Group("qsb/QSwrite_basis", "qs_basis.c", tus=QS, model=MODEL, defines=["FN_QSwrite_basis"],
           enforce=["mpq_QSwrite_basis/contract_QSwrite_basis"], loops="qsopt.json", expect_loops=4, preinline=["qsbasis_to_illbasis", "mpq_ILLlp_basis_free"],
-          props=["C14", "C07", "C17", "C18"], 
+          props=["C14", "C07", "C17", "C18"],
           assumed=["qsb/QSwrite_basis: ILLlib_writebasis (the text writer, C14 round-trip half) is a nondeterministic stub that records the basis it is given"]),
+    Group("qsb/QSload_basis", "qs_basis.c", tus=QS, model=MODEL, defines=["FN_QSload_basis"], dfcc=False, unwind=5, kind="bounded", bound=BB, flags=["--no-malloc-may-fail"],
+          must_fail=["reach_end", "reach_accepted", "reach_malformed"], functions=["QSload_basis", "qsbasis_to_illbasis"], props=["C07", "C12", "C17"]),
+    Group("qsb/QSload_basis_array", "qs_basis.c", tus=QS, model=MODEL, defines=["FN_QSload_basis_array"], dfcc=False, unwind=5, kind="bounded", bound=BB, flags=["--no-malloc-may-fail"],
+          must_fail=["reach_end", "reach_accepted", "reach_malformed"], functions=["QSload_basis_array"], props=["C07", "C12", "C17"]),
 ]
